@@ -99,6 +99,10 @@ def _has_dictionary_columns(schema: pa.Schema) -> bool:
 # ---------------------------------------------------------------------------
 
 
+class _ShmSinkOverflowError(Exception):
+    """The IPC stream being written does not fit the region allocated for it."""
+
+
 class _ShmSink(RawIOBase):
     """Writable file-like object targeting a shared memory region.
 
@@ -108,14 +112,19 @@ class _ShmSink(RawIOBase):
 
     Inherits from ``RawIOBase`` to satisfy ``new_ipc_stream()`` type
     requirements.
+
+    When *limit* is given, a write that would pass ``start + limit`` raises
+    ``_ShmSinkOverflowError`` instead of spilling into the neighbouring
+    allocation.
     """
 
-    def __init__(self, buf: memoryview, start: int) -> None:
-        """Initialize targeting *buf* starting at byte offset *start*."""
+    def __init__(self, buf: memoryview, start: int, *, limit: int | None = None) -> None:
+        """Initialize targeting *buf* at byte offset *start*, writing at most *limit* bytes."""
         super().__init__()
         self._buf = buf
         self._pos = start
         self._start = start
+        self._end = None if limit is None else start + limit
 
     def write(self, data: bytes | bytearray | memoryview | pa.Buffer) -> int:  # type: ignore[override]  # ty: ignore[invalid-method-override]
         """Write *data* into the shared memory region."""
@@ -126,6 +135,8 @@ class _ShmSink(RawIOBase):
         else:
             mv = memoryview(data).cast("B") if data.format != "B" else data
         n = len(mv)
+        if self._end is not None and self._pos + n > self._end:
+            raise _ShmSinkOverflowError(f"IPC stream exceeds its {self._end - self._start}-byte allocation")
         self._buf[self._pos : self._pos + n] = mv
         self._pos += n
         return n
@@ -432,14 +443,24 @@ class ShmSegment:
 
         if not _has_dictionary_columns(batch.schema):
             # Non-dict: write IPC stream directly into SHM via _ShmSink
-            estimated = ipc.get_record_batch_size(batch) + _STREAM_OVERHEAD
+            # The stream is schema message + record batch + EOS; the schema message
+            # grows with the number of columns and with metadata, so it is measured
+            # rather than assumed to fit the fixed overhead.
+            estimated = ipc.get_record_batch_size(batch) + batch.schema.serialize().size + _STREAM_OVERHEAD
             offset = self._allocator.allocate(estimated)
             if offset is None:
                 return None
-            sink = _ShmSink(shm_buf, offset)
-            writer = new_ipc_stream(sink, batch.schema)
-            writer.write_batch(batch)
-            writer.close()
+            sink = _ShmSink(shm_buf, offset, limit=estimated)
+            try:
+                writer = new_ipc_stream(sink, batch.schema)
+                writer.write_batch(batch)
+                writer.close()
+            except _ShmSinkOverflowError:
+                # Dictionaries nested below the top level add dictionary messages the
+                # estimate does not cover.  Give the region back; the caller sends the
+                # batch inline instead.
+                self._allocator.free(offset)
+                return None
             return offset, sink.bytes_written
 
         # Dict path: serialize to buffer, then copy
